@@ -113,6 +113,14 @@ func poolEscapes(fn *ssa.Function) (put ssa.Instruction, escape ssa.Instruction)
 					tainted[x] = true
 					work = append(work, x)
 				}
+				// library functions that return a sub-slice of their first argument
+				switch an.CalleeID(x) {
+				case "bytes.TrimRight", "bytes.TrimLeft", "bytes.Trim", "bytes.TrimSpace", "bytes.TrimSuffix", "bytes.TrimPrefix", "bytes.TrimFunc", "bytes.TrimRightFunc", "bytes.TrimLeftFunc":
+					if len(x.Call.Args) > 0 && x.Call.Args[0] == v && !tainted[x] {
+						tainted[x] = true
+						work = append(work, x)
+					}
+				}
 			case *ssa.Store:
 				if x.Val != v {
 					continue
